@@ -3,7 +3,6 @@
 package main
 
 import (
-	"path/filepath"
 	"bytes"
 	"encoding/binary"
 	"encoding/json"
@@ -12,6 +11,7 @@ import (
 	"github.com/theparanoids/ysshra/csr"
 	"io"
 	"os"
+	"path/filepath"
 	"sort"
 	"strings"
 	"time"
